@@ -130,7 +130,7 @@ def source_audit(modules=None):
 
 def axiom_audit(module, theorems):
     """#print axioms for each theorem; returns dict name -> (ok, axioms or error text)"""
-    code = "import %s\nopen TB TB.Exec\n" % module + "".join("#print axioms %s\n" % t for t in theorems)
+    code = "import %s\nopen TB%s\n" % (module, " TB.Exec" if module.endswith(".C05") else "") + "".join("#print axioms %s\n" % t for t in theorems)
     rc, out = lean_run(code, is_code=True)
     res = {}
     # output blocks: "'TB.name' depends on axioms: [a, b]" or "'TB.name' does not depend on any axioms"
